@@ -143,6 +143,14 @@ def enum_units(tier, seed):
             else:
                 wrap = inner
             extra.append(pre + first + wrap + [dl("sc_q")])
+    # a parameter whose argument is only known late (a label defined after the call) while an outer := constant / an enclosing
+    # application's parameter has the parameter's name: inside the body the name is the parameter, also where values are needed early
+    mj = {"k": "macro", "n": "m_j", "ps": ["p_dest"], "b": [{"k": "call", "n": "m_p", "args": [["bin", "&", ["id", "p_dest"], L(0xFF)]]}, dl("p_dest"),
+                                                          {"k": "if", "c": ["id", "p_dest"], "t": [db(L(1))], "e": [db(L(2))]}, {"k": "ins", "m": "lda", "shape": ["", None, None], "sfx": "w", "e": ["id", "p_dest"]}]}
+    extra.append([{"k": "const", "n": "p_dest", "e": L(1), "eager": True}, org, mp, mj, {"k": "call", "n": "m_j", "args": [["id", "lb_later"]]}, db(["id", "p_dest"]), lab("lb_later"), db(L(0x60))])
+    extra.append([org, mp, mj, {"k": "macro", "n": "m_outer", "ps": ["p_dest"], "b": [{"k": "call", "n": "m_j", "args": [["id", "lb_later"]]}, db(["id", "p_dest"])]},
+                  {"k": "call", "n": "m_outer", "args": [L(3)]}, lab("lb_later"), db(L(0x60))])
+    extra.append([org, mp, mj, {"k": "for", "v": "p_dest", "lo": L(1), "hi": L(3), "b": [{"k": "call", "n": "m_j", "args": [["id", "lb_later"]]}, db(["id", "p_dest"])]}, lab("lb_later"), db(L(0x60))])
     for i, ir in enumerate(extra):
         cases.append({"rom": "low", "files": {}, "ir": ir, "twin_seed": 100 + i})
     return {"units": [{"cases": cases[i::8]} for i in range(8)], "exhaustive": False}
